@@ -19,7 +19,7 @@ RULE = ("SSE family: the real sse.StartListener and the clients it starts, insid
         "server reached through a real http.Transport over net.Pipe connections (installed as http.DefaultTransport).  Schedules "
         "= what each connect of each of up to three beacon node addresses is answered with (refused / status code / stream), the "
         "bytes of the stream -- frames of head / chain_reorg / block_gossip / block / unknown topics, well-formed and malformed in "
-        "28 ways (JSON shape, slot / depth / root text), comments, id / retry / unknown / colon-less fields, multi-line data cut "
+        "some 40 ways (JSON shape, slot / depth / root text), comments, id / retry / unknown / colon-less fields, multi-line data cut "
         "between and inside JSON tokens, CRLF and LF, oversize lines -- cut into chunks at random byte positions, byte by byte "
         "and at every position class of a line, the time of every chunk, how and when a stream ends (clean end between lines / "
         "inside a line, truncated body, connection reset), subscribers added before and after events, cancellation; generated "
@@ -581,6 +581,8 @@ def sc_gossip(r, big):
     stored = []
     for _ in range(r.randint(4, 14)):
         a = r.randint(1, n)
+        if r.random() < 0.25:      # exactly at a slot boundary / a third of a slot (the limits of the "too late" classification)
+            t += (-(t - cfg["gen"])) % slotms + r.choice([0, 0, slotms // 3, -1, 1])
         now_slot = slot_at(cfg, t)
         x = r.random()
         if x < 0.4:
@@ -593,7 +595,7 @@ def sc_gossip(r, big):
                 a = a2 if r.random() < 0.8 else a
                 s = s + r.choice([0, 0, 0, spe, spe + 1, spe - 1])
             else:
-                s = max(0, now_slot + r.choice([0, 0, 1, -1, spe]))
+                s = max(0, now_slot + r.choice([0, 0, 1, -1, -1, spe]))
             rk = None if r.random() < 0.9 else r.choice(BAD_ROOT)
             fr = frame(r, "head", good(r, cfg, "head", t, slot=s, rootkind=rk), noisy=0.1)
         else:
